@@ -305,10 +305,12 @@ pub fn emit_recv(recvs: &[Recv], r: &Recv, out: &mut String) {
         }
         Shape::Newtype(_) if !g.is_empty() => {
             // generic wrapper: compile-only (the parameter stands for the inner receiver)
-            out.push_str(&format!("pub struct {name}{g}(pub T);\n"));
+            let skip = if r.inner_skip { "#[darling(skip)] " } else { "" };
+            out.push_str(&format!("pub struct {name}{g}({skip}pub T);\n"));
         }
         Shape::Newtype(t) if r.tr.element_level() => {
-            out.push_str(&format!("pub struct {name}(pub {});\n", rust_ty(recvs, t)));
+            let skip = if r.inner_skip { "#[darling(skip)] " } else { "" };
+            out.push_str(&format!("pub struct {name}({skip}pub {});\n", rust_ty(recvs, t)));
             out.push_str(&format!("impl ::vf_support::Dump for {name} {{ fn dump(&self) -> ::vf_support::Value {{ let mut o = ::vf_support::serde_json_map(); o.insert(String::from(\"{name}\"), ::vf_support::Dump::dump(&self.0)); ::vf_support::Value::Object(o) }} }}\n"));
         }
         Shape::Newtype(t) => {
